@@ -409,7 +409,13 @@ def gen_config(rng, tier):
                  ("shadow_close", 0.4), ("fg_base", 1.0), ("fg_circ", 0.6), ("gate", 0.5)):
         if rng.random() < 0.7:
             ops[k] = w * rng.choice([0.5, 1.0, 2.0])
-    return {"n": n, "steps": rng.randrange(5, 40) if tier != "thorough" else rng.randrange(5, 90), "ops": ops, "faults": ["coin_force"] if rng.random() < 0.3 else [],
+    steps = rng.randrange(5, 40) if tier != "thorough" else rng.randrange(5, 90)
+    if rng.random() < 0.03:
+        # a few runs on 9 and 10 qubits (more than 8 active generators): expansion and sampling only
+        n = rng.choice([9, 10])
+        ops = {"new": 1.0, "density": 2.0, "sample": 2.0, "setr": 0.5}
+        steps = min(steps, 6)
+    return {"n": n, "steps": steps, "ops": ops, "faults": ["coin_force"] if rng.random() < 0.3 else [],
             "flags": ["c19"], "max_slots": rng.choice([1, 2, 3])}
 
 
